@@ -4,12 +4,12 @@ import os
 import appcommon, apporacles
 
 
-def readonly_traffic(v, out, hists, cov):
+def readonly_traffic(v, out, hists, cov, a=None, res=None):
     byid = {h["id"]: h for h in hists}
     n = bad = 0
     for l in open(os.path.join(out, "app.det")):
         hid, variant, rest = l.rstrip("\n").split(" ", 2)
-        if variant != "interleaved":
+        if not variant.endswith("interleaved"):
             continue
         n += 1
         if rest != "same":
